@@ -316,7 +316,7 @@ class budget:
 def _tick():
     """the wall-clock budget also covers work on case trees between evaluation steps"""
     _TICK[0] += 1
-    if (_TICK[0] & 4095) == 0 and _ACTIVE[0] > 0 and _time.time() > _ACTIVE[1]:
+    if (_TICK[0] & 255) == 0 and _ACTIVE[0] > 0 and _time.time() > _ACTIVE[1]:
         raise OutOfTime("time budget (%ds) exceeded: the value grows too large to enumerate" % EVAL_BUDGET_S)
 
 
@@ -345,6 +345,7 @@ FLIP = {"Lt": "Gt", "Le": "Ge", "Gt": "Lt", "Ge": "Le", "Eq": "Eq", "Ne": "Ne"}
 
 
 def binop(op, a, b, ty):
+    _tick()
     base = op.replace("WithOverflow", "").replace("Unchecked", "")
     if a[0] in ("cases", "ite") and is_c(b) and ty in INT_TYS and base in CMP | {"BitAnd", "Shr", "Shl", "Add", "Sub", "Mul", "Div", "Rem", "BitOr"}:
         return map_leaves(a, lambda x: binop(op, x, b, ty))
@@ -919,7 +920,7 @@ class Evaluator:
             self.steps += 1
             if self.steps > MAXSTEPS:
                 raise Undecided("step budget exceeded in " + fn.path)
-            if (self.steps & 63) == 0 and _time.time() > getattr(self, "deadline", float("inf")):
+            if (self.steps & 7) == 0 and _time.time() > getattr(self, "deadline", float("inf")):
                 raise OutOfTime("time budget (%ds) exceeded in %s: the value grows too large to enumerate" % (EVAL_BUDGET_S, fn.path))
             mkey = None
             if len(fn.pred_map()[bb]) > 1 and self.stop is None:
@@ -951,7 +952,7 @@ class Evaluator:
                 self.steps += 1
                 if self.steps > MAXSTEPS:
                     raise Undecided("step budget exceeded in " + fn.path)
-                if (self.steps & 63) == 0 and _time.time() > getattr(self, "deadline", float("inf")):
+                if (self.steps & 7) == 0 and _time.time() > getattr(self, "deadline", float("inf")):
                     raise OutOfTime("time budget (%ds) exceeded in %s: the value grows too large to enumerate" % (EVAL_BUDGET_S, fn.path))
             first = False
             if self.stop is not None and fn.path == self.stop[0]:
